@@ -26,7 +26,7 @@ func vGolden(max int) []byte {
 }
 
 type vCmpLine struct {
-	target int  // 0,1: archive entry index; 2: file outside the archive
+	target int  // 0,1: archive entry index; 2,3: files outside the archive (3 shares its base name with entry 0)
 	neg    bool // ! cmp
 	env    bool // cmpenv
 }
@@ -41,6 +41,7 @@ func vRunScript(script []byte, update bool, actual string, fsys *vfs.FS) *vT {
 			},
 			"mkoutside": func(ts *TestScript, neg bool, args []string) {
 				ts.Check(writeFile(ts.MkAbs("outside.txt"), []byte("outside\n"), 0o666, false))
+				ts.Check(writeFile(ts.MkAbs("sub/g0.txt"), []byte("outside\n"), 0o666, false))
 			},
 		},
 	}
@@ -57,7 +58,7 @@ func vRunScript(script []byte, update bool, actual string, fsys *vfs.FS) *vT {
 // script archive / a file outside it, by cmp, ! cmp or cmpenv, with and
 // without UpdateScripts.
 func VerifC16Update() {
-	names := []string{"g0.txt", "g1.txt"}
+	names := []string{"g0.txt", "sub/g1.txt"}
 	gold := [][]byte{vGolden(rt.Param("G", 2)), vGolden(rt.Param("G", 2))}
 	// actual text: arbitrary short bytes, or a text containing a marker line
 	var actual string
@@ -80,13 +81,19 @@ func VerifC16Update() {
 	cmps := make([]vCmpLine, ncmp)
 	var sb strings.Builder
 	sb.WriteString("mkoutside\nemit\n")
+	// the comparisons may run from a sub-directory: targets are then named
+	// relative to it (or absolutely through $WORK)
+	cdsub := rt.Bool()
+	refs := []string{"g0.txt", "sub/g1.txt", "outside.txt", "sub/g0.txt"}
+	if cdsub {
+		sb.WriteString("cd sub\n")
+		refs = []string{"../g0.txt", "g1.txt", "$WORK/outside.txt", "g0.txt"}
+		rt.Reach("cmp-from-subdirectory")
+	}
 	for i := range cmps {
-		c := vCmpLine{target: rt.IntRange(0, 2), neg: rt.Bool(), env: rt.Bool()}
+		c := vCmpLine{target: rt.IntRange(0, 3), neg: rt.Bool(), env: rt.Bool()}
 		cmps[i] = c
-		tname := "outside.txt"
-		if c.target < 2 {
-			tname = names[c.target]
-		}
+		tname := refs[c.target]
 		line := "cmp stdout " + tname
 		if c.env {
 			line = "cmpenv stdout " + tname
